@@ -457,6 +457,14 @@ def _write_external_data(
     destination_path = (
         os.path.realpath(requested_path) if os.path.islink(requested_path) else requested_path
     )
+    # Inspect the input tensors before anything is created on disk: a malformed
+    # location (e.g. an embedded null byte) raises here and must not leak the temporary directory.
+    overwritten_tensors = [
+        tensor
+        for tensor in tensors
+        if isinstance(tensor, _core.ExternalTensor)
+        and _paths_refer_to_same_file(tensor.path, destination_path)
+    ]
     destination_dir = os.path.dirname(destination_path) or "."
     temporary_dir = tempfile.mkdtemp(
         dir=destination_dir,
@@ -464,12 +472,6 @@ def _write_external_data(
     )
     temporary_path = os.path.join(temporary_dir, os.path.basename(destination_path))
 
-    overwritten_tensors = [
-        tensor
-        for tensor in tensors
-        if isinstance(tensor, _core.ExternalTensor)
-        and _paths_refer_to_same_file(tensor.path, destination_path)
-    ]
     try:
         writer = _ExternalDataWriter(
             tensors,
